@@ -262,6 +262,41 @@ def find_cycle(edges):
     return None
 
 
+def pure_cycle_sources(lengths):
+    """A single dependency cycle of each length, of structures / constants / alternating, in EVERY declaration order."""
+    for n in lengths:
+        for kind in ("struct", "const", "mixed"):
+            decls = []
+            for k in range(n):
+                nxt = (k + 1) % n
+                is_struct = kind == "struct" or (kind == "mixed" and k % 2 == 0)
+                nxt_struct = kind == "struct" or (kind == "mixed" and nxt % 2 == 0)
+                if is_struct:
+                    member = "\tnext: N%d," % nxt if nxt_struct else "\tdata: [N%d]i32," % nxt
+                    decls.append("struct N%d\n{\n\tbase: i32,\n%s\n}" % (k, member))
+                else:
+                    decls.append("const N%d: usize = 1 + %s;" % (k, ("|:N%d|" % nxt) if nxt_struct else "N%d" % nxt))
+            main = "fn main() -> i32\n{\n\treturn: 0\n}"
+            for order in itertools.permutations(range(n)):
+                yield n, kind, order, "\n\n".join([decls[q] for q in order] + [main]) + "\n"
+
+
+def run_pure_cycle(case):
+    _, n, kind, order, src = case
+    got = outcome(src, run=False)
+    replay = {"source": src, "cycle_length": n, "kind": kind, "order": list(order)}
+    cov = {"pure_cycles": 1, "pure_cycle_length_%d" % n: 1}
+    if got[0] == "crash":
+        return {"verdict": VIOLATED, "sig": "pure %s cycle of length %d: %s" % (kind, n, got[1]), "detail": got[1], "replay": replay, "cov": cov}
+    if got[0] == "ok":
+        return {"verdict": VIOLATED, "sig": "cyclic %s dependency of length %d accepted in some declaration order" % (kind, n),
+                "detail": list(order), "replay": replay, "cov": cov}
+    if not (set(got[1]) & {413, 415, 416}):
+        return {"verdict": VIOLATED, "sig": "cyclic %s dependency of length %d rejected with %s in some declaration order" % (kind, n, list(got[1])),
+                "detail": list(order), "replay": replay, "cov": cov}
+    return {"verdict": HELD, "cov": cov, "nt": "purecycle:%s:%d:%s" % (kind, n, "".join(map(str, order)))}
+
+
 # ---- 3. duplicates
 
 def dup_cases():
@@ -520,6 +555,8 @@ def run_named(case):
 
 def run_case(case):
     k = case[0]
+    if k == "purecycle":
+        return run_pure_cycle(case)
     if k == "enum":
         return run_type_enum(case)
     if k == "named":
@@ -551,6 +588,7 @@ def main(tier, seed, replay=None):
     q = tier == "quick"
     cases = [("perm", seed, i) for i in range(300 if q else 6000)]
     cases += [("graph", seed, i) for i in range(600 if q else 10000)]
+    cases += [("purecycle", n, kind, order, src) for n, kind, order, src in pure_cycle_sources((1, 2, 3, 4, 5) if q else (1, 2, 3, 4, 5, 6))]
     cases += [("table", n, s, w) for n, s, w in dup_cases()]
     cases += [("table", n, s, w) for n, s, w in type_table()]
     cases += [("enum", ws, b, text) for ws, b, text in enum_types(3)]
